@@ -88,6 +88,16 @@ CLAIMS = {
          "manifolds on their side of the plane with volumes adding up is NOT decided here (listed as unverified)."),
    design='6 C09', technique='contract-based deductive verification: own VC generator over the clang AST (loop invariants with quantified list facts, ghost allocation watermark, reachability covers) + SMT (E-matching) + sympy ideal membership; native replay of refuted obligations',
    note=NOTE_COMMON + " OpenMP loop read sequentially. The geometric outcome of a division (closed daughters, volume split) is not under contract."),
+ 'C13': dict(
+   text=("Slice of the property decided by contracts on the real code - the accept/reject gate, not the reconstruction: "
+         "simulation_initializer::triangulate_surface returns only a cell whose validation (initialize_cell_properties) returned normally in the "
+         "same attempt and otherwise throws intialization_exception (attempt loop by contract, every stage may throw); "
+         "initialize_cell_properties with the integrity check on returns normally only after edge-set generation, a positive manifold test and "
+         "the orientation pass, in this order; the tail of check_face_normal_orientation flips every used face exactly when the sum of the face "
+         "determinants is negative (loops by contract, partial-sum ghost), so an accepted cell is oriented outward. Faithfulness and "
+         "closedness of what the reconstruction produces, and the sample spacing, are NOT decided (listed as unverified)."),
+   design='6 C13', technique='contract-based deductive verification: own VC generator over the clang AST (suffix contract, loop contracts, ghost clock for stage order, reachability covers) + SMT; native replay of refuted obligations',
+   note=NOTE_COMMON + " The randomised reconstruction (Poisson sampling, ball pivoting, hole filling) is outside the reach of contracts here."),
  'C17': dict(
    text=("Slice of the property decided by contracts on the real code, i.e. everything after the std::regex front end has produced numbers: "
          "mesh_reader::get_cell_mesh is memory-safe for EVERY pair of vectors (arbitrary cell record of any length, arbitrary counters and point ids, "
